@@ -46,33 +46,42 @@ theorem C13_read_after_writes (ws : List SWrite) (l : L) (b : Addr) (k' : String
 /-- the changer's invariant on revision ids (ids are handed out from `nextRev`) -/
 def RevsOk (s : L) : Prop := ∀ r ∈ s.revisions, r.1 < s.nextRev
 
-/-- **reverting to a snapshot restores every storage value to what it was at snapshot time**: take a snapshot of any ledger `s`, make
-any sequence of storage writes and deletes (any accounts — objects of the block, loadable from cache or database, or created by the
-write — any keys, any values), revert: the revert succeeds and every key of every account reads what it read at `s` -/
-theorem C13_revert_restores_storage (K : String → String) (s : L) (hrev : RevsOk s) (ws : List SWrite) :
-    ∃ l3, revertTo K (writes ws (snapshot s).1) (snapshot s).2 = some l3 ∧
-      (∀ a k, (getState l3 a k).2 = (getState s a k).2) ∧ l3.changes = s.changes ∧ l3.revisions = s.revisions := by
-  obtain ⟨cs, hcs, g⟩ := undo_writes K ws (snapshot s).1
-  have hsnap : RevRel (snapshot s).1 s := ⟨rfl, rfl, fun _ _ => rfl, fun _ h => h⟩
-  obtain ⟨l3, h1, h2, h3, _, h5⟩ := revertTo_eq K s (writes ws (snapshot s).1) cs hrev
-    (by rw [(writes_revs ws _).1]; rfl) hcs
-  refine ⟨l3, h1, ?_, h2, h3⟩
+/-- **reverting to a snapshot restores every journaled value to what it was at snapshot time**: take a snapshot of any ledger `s`, make
+any sequence of journaled writes — storage writes and deletes, balance and nonce updates; any accounts: objects of the block, loadable
+from cache or database, or created by the write; any keys, any values — and revert: the revert succeeds, every storage key of every
+account reads what it read at `s`, and so do every account's balance and nonce; the journal and the revision stack are what they were -/
+theorem C13_revert_restores_every_journaled_value (K : String → String) (s : L) (hrev : RevsOk s) (ws : List Write) :
+    ∃ l3, revertTo K (applyWrites ws (snapshot s).1) (snapshot s).2 = some l3 ∧
+      (∀ a k, (getState l3 a k).2 = (getState s a k).2) ∧
+      (∀ a, (getBalance l3 a).2 = (getBalance s a).2 ∧ (getNonce l3 a).2 = (getNonce s a).2) ∧
+      l3.changes = s.changes ∧ l3.revisions = s.revisions := by
+  obtain ⟨cs, hcs, g⟩ := undo_applyWrites K ws (snapshot s).1
+  have hsnap : RevRel (snapshot s).1 s := ⟨rfl, rfl, fun _ _ => rfl, fun _ => rfl, fun _ h => h⟩
+  obtain ⟨l3, h1, h2, h3, _, h5⟩ := revertTo_eq K s (applyWrites ws (snapshot s).1) cs hrev
+    (by rw [(applyWrites_revs ws _).1]; rfl) hcs
   have hR : RevRel l3 s := h5 _ (RevRel.refl _) s (fun u hu => (g u hu).trans hsnap)
-  intro a k
-  rw [getState_peek, getState_peek]; exact hR.peek a k
+  refine ⟨l3, h1, ?_, ?_, h2, h3⟩
+  · intro a k
+    rw [getState_peek, getState_peek]; exact hR.peek a k
+  · intro a
+    rw [getBalance_peek, getBalance_peek, getNonce_peek, getNonce_peek, hR.inner a]
+    exact ⟨rfl, rfl⟩
 
 /-- **nested snapshots revert independently**: snapshot 1 at `s`, writes `ws1`, snapshot 2, writes `ws2`, revert to snapshot 2 — every
-key reads what it read when snapshot 2 was taken; then writes `ws3` and a revert to snapshot 1 — every key reads what it read at `s` -/
-theorem C13_nested_snapshots_revert_independently (K : String → String) (s : L) (hrev : RevsOk s) (ws1 ws2 ws3 : List SWrite) :
-    let t := writes ws1 (snapshot s).1
-    ∃ l3, revertTo K (writes ws2 (snapshot t).1) (snapshot t).2 = some l3 ∧
+key, balance and nonce reads what it read when snapshot 2 was taken; then writes `ws3` and a revert to snapshot 1 — everything reads
+what it read at `s` -/
+theorem C13_nested_snapshots_revert_independently (K : String → String) (s : L) (hrev : RevsOk s) (ws1 ws2 ws3 : List Write) :
+    let t := applyWrites ws1 (snapshot s).1
+    ∃ l3, revertTo K (applyWrites ws2 (snapshot t).1) (snapshot t).2 = some l3 ∧
       (∀ a k, (getState l3 a k).2 = (getState t a k).2) ∧
-      ∃ l5, revertTo K (writes ws3 l3) (snapshot s).2 = some l5 ∧ ∀ a k, (getState l5 a k).2 = (getState s a k).2 := by
+      (∀ a, (getBalance l3 a).2 = (getBalance t a).2 ∧ (getNonce l3 a).2 = (getNonce t a).2) ∧
+      ∃ l5, revertTo K (applyWrites ws3 l3) (snapshot s).2 = some l5 ∧ (∀ a k, (getState l5 a k).2 = (getState s a k).2) ∧
+        ∀ a, (getBalance l5 a).2 = (getBalance s a).2 ∧ (getNonce l5 a).2 = (getNonce s a).2 := by
   intro t
-  obtain ⟨cs1, hcs1, g1⟩ := undo_writes K ws1 (snapshot s).1
-  have hsnap : RevRel (snapshot s).1 s := ⟨rfl, rfl, fun _ _ => rfl, fun _ h => h⟩
-  have htrevs : t.revisions = s.revisions ++ [(s.nextRev, s.changes.length)] := (writes_revs ws1 _).1
-  have htnext : t.nextRev = s.nextRev + 1 := (writes_revs ws1 _).2
+  obtain ⟨cs1, hcs1, g1⟩ := undo_applyWrites K ws1 (snapshot s).1
+  have hsnap : RevRel (snapshot s).1 s := ⟨rfl, rfl, fun _ _ => rfl, fun _ => rfl, fun _ h => h⟩
+  have htrevs : t.revisions = s.revisions ++ [(s.nextRev, s.changes.length)] := (applyWrites_revs ws1 _).1
+  have htnext : t.nextRev = s.nextRev + 1 := (applyWrites_revs ws1 _).2
   have hrevt : RevsOk t := by
     intro r hr
     rw [htrevs] at hr
@@ -80,30 +89,37 @@ theorem C13_nested_snapshots_revert_independently (K : String → String) (s : L
     rcases List.mem_append.mp hr with h | h
     · have := hrev r h; omega
     · simp at h; rw [h]; simp
+  have reads : ∀ {x y : L}, RevRel x y → (∀ a k, (getState x a k).2 = (getState y a k).2) ∧
+      ∀ a, (getBalance x a).2 = (getBalance y a).2 ∧ (getNonce x a).2 = (getNonce y a).2 := by
+    intro x y hR
+    refine ⟨fun a k => by rw [getState_peek, getState_peek]; exact hR.peek a k, fun a => ?_⟩
+    rw [getBalance_peek, getBalance_peek, getNonce_peek, getNonce_peek, hR.inner a]
+    exact ⟨rfl, rfl⟩
   -- the inner revert
-  obtain ⟨cs2, hcs2, g2⟩ := undo_writes K ws2 (snapshot t).1
-  have hsnapt : RevRel (snapshot t).1 t := ⟨rfl, rfl, fun _ _ => rfl, fun _ h => h⟩
-  obtain ⟨l3, i1, i2, i3, i4, i5⟩ := revertTo_eq K t (writes ws2 (snapshot t).1) cs2 hrevt
-    (by rw [(writes_revs ws2 _).1]; rfl) hcs2
+  obtain ⟨cs2, hcs2, g2⟩ := undo_applyWrites K ws2 (snapshot t).1
+  have hsnapt : RevRel (snapshot t).1 t := ⟨rfl, rfl, fun _ _ => rfl, fun _ => rfl, fun _ h => h⟩
+  obtain ⟨l3, i1, i2, i3, i4, i5⟩ := revertTo_eq K t (applyWrites ws2 (snapshot t).1) cs2 hrevt
+    (by rw [(applyWrites_revs ws2 _).1]; rfl) hcs2
   have hR3 : RevRel l3 t := i5 _ (RevRel.refl _) t (fun u hu => (g2 u hu).trans hsnapt)
-  refine ⟨l3, i1, fun a k => by rw [getState_peek, getState_peek]; exact hR3.peek a k, ?_⟩
+  refine ⟨l3, i1, (reads hR3).1, (reads hR3).2, ?_⟩
   -- the outer revert
-  obtain ⟨cs3, hcs3, g3⟩ := undo_writes K ws3 l3
-  have hchg : (writes ws3 l3).changes = s.changes ++ (cs1 ++ cs3) := by
+  obtain ⟨cs3, hcs3, g3⟩ := undo_applyWrites K ws3 l3
+  have hchg : (applyWrites ws3 l3).changes = s.changes ++ (cs1 ++ cs3) := by
     rw [hcs3, i2, hcs1]; simp [snapshot]
-  obtain ⟨l5, o1, _, _, _, o5⟩ := revertTo_eq K s (writes ws3 l3) (cs1 ++ cs3) hrev
-    (by rw [(writes_revs ws3 _).1, i3, htrevs]) hchg
+  obtain ⟨l5, o1, _, _, _, o5⟩ := revertTo_eq K s (applyWrites ws3 l3) (cs1 ++ cs3) hrev
+    (by rw [(applyWrites_revs ws3 _).1, i3, htrevs]) hchg
   have hR5 : RevRel l5 s := o5 _ (RevRel.refl _) s (fun u hu => by
     rw [List.reverse_append, List.foldl_append]
     exact (g1 _ ((g3 u hu).trans hR3)).trans hsnap)
-  exact ⟨l5, o1, fun a k => by rw [getState_peek, getState_peek]; exact hR5.peek a k⟩
+  exact ⟨l5, o1, (reads hR5).1, (reads hR5).2⟩
 
 /-- non-vacuity: a concrete ledger (one account object with a dirty and an origin value, one account only in the database), a snapshot,
-a write to each and a delete, a revert: the revert succeeds -/
+writes to each (storage, balance, nonce, a delete, a created account), a revert: the revert succeeds -/
 example :
     let s : L := { accounts := [(1, { dirtyState := [("a", some "x")], originState := [("ab", some "y")] })],
                    db := { state := [((2, "k"), "dbv")], acct := [(2, { nonce := 1 })] } }
-    RevsOk s ∧ (revertTo id (writes [⟨1, "a", some "z"⟩, ⟨2, "k", none⟩, ⟨3, "q", some "w"⟩] (snapshot s).1) (snapshot s).2).isSome = true ∧
+    RevsOk s ∧ (revertTo id (applyWrites [.storage 1 "a" (some "z"), .balance 2 5, .storage 2 "k" none, .nonce 3 7, .storage 3 "q" (some "w")]
+        (snapshot s).1) (snapshot s).2).isSome = true ∧
       (getState s 2 "k").2 = some "dbv" := by
   refine ⟨?_, ?_, ?_⟩
   · intro r hr; cases hr
